@@ -84,6 +84,7 @@ type jbLetter struct {
 	data   []byte
 	hasRef bool // the segment kind has a referred-to segment slot that is enumerated
 	region bool // member of the reduced "page and generic / refinement regions" alphabet
+	size   int  // side length of the region bitmap (parameter alphabet; 0: not a region)
 }
 
 // jbBitmap is a fixed non-trivial w x h pattern; variant 1 differs in a few pixels.
@@ -140,6 +141,103 @@ func jbLetters() []jbLetter {
 		jbLetter{name: "text(6) 8x8", typ: 6, data: txt, hasRef: true},
 		jbLetter{name: "intermediate-text(4) 8x8", typ: 4, data: txt, hasRef: true},
 	)
+	return out
+}
+
+// jbParamLetters is the PARAMETER alphabet: the region and dictionary segment
+// kinds of jbLetters with EVERY value of the coding-parameter bits of their
+// flags byte, each payload a valid encoding under exactly these parameters
+// (made with the repository's segment encoders, used as opaque bytes):
+//
+//	generic region (38) and intermediate generic region (36), 8x8 and 64x64:
+//	    GBTEMPLATE 0..3 x TPGDON 0/1 (arithmetic coding, nominal AT pixels),
+//	    GBTEMPLATE 0 with EXTTEMPLATE (12 AT pixels) x TPGDON 0/1, and MMR     (11)
+//	refinement region (42) and intermediate refinement region (40), 8x8 and 64x64,
+//	    with a referred-to slot: GRTEMPLATE 0/1 x TPGRON 0/1                   (4)
+//	symbol dictionary (0): SDTEMPLATE 0..3                                      (4)
+//	text region (6) 8x8 with a referred-to slot
+func jbParamLetters() []jbLetter {
+	var out []jbLetter
+	b2i := map[bool]int{false: 0, true: 1}
+	for _, s := range jbSizes {
+		bm := jbBitmap(s, s, 0)
+		type variant struct {
+			name string
+			data []byte
+		}
+		var vs []variant
+		for t := 0; t < 4; t++ {
+			for _, tp := range []bool{false, true} {
+				vs = append(vs, variant{fmt.Sprintf("GBTEMPLATE=%d TPGDON=%d", t, b2i[tp]), jbig2.EncodeGenericRegionSegment(bm, 0, 0, t, bitmap.CombOpOR, tp, false)})
+			}
+		}
+		for _, tp := range []bool{false, true} {
+			vs = append(vs, variant{fmt.Sprintf("GBTEMPLATE=0 EXTTEMPLATE TPGDON=%d", b2i[tp]), jbig2.EncodeGenericRegionSegment(bm, 0, 0, 0, bitmap.CombOpOR, tp, true)})
+		}
+		if mmr, err := jbig2.EncodeGenericRegionSegmentMMR(bm, 0, 0, bitmap.CombOpOR); err == nil {
+			vs = append(vs, variant{"MMR", mmr})
+		}
+		for _, typ := range []int{38, 36} {
+			kind := map[int]string{38: "generic(38)", 36: "intermediate-generic(36)"}[typ]
+			for _, v := range vs {
+				out = append(out, jbLetter{name: fmt.Sprintf("%s %dx%d %s", kind, s, s, v.name), typ: typ, data: v.data, region: true, size: s})
+			}
+		}
+	}
+	for t := 0; t < 4; t++ {
+		out = append(out, jbLetter{name: fmt.Sprintf("symbol-dict(0) SDTEMPLATE=%d", t), typ: 0, data: jbig2.EncodeSymbolDictSegment(jbSymbols(), t)})
+	}
+	for _, s := range jbSizes {
+		for t := 0; t < 2; t++ {
+			for _, tp := range []bool{false, true} {
+				ref := jbig2.EncodeRefinementRegionSegment(jbBitmap(s, s, 1), jbBitmap(s, s, 0), 0, 0, t, bitmap.CombOpOR, tp)
+				for _, typ := range []int{42, 40} {
+					kind := map[int]string{42: "refinement(42)", 40: "intermediate-refinement(40)"}[typ]
+					out = append(out, jbLetter{name: fmt.Sprintf("%s %dx%d GRTEMPLATE=%d TPGRON=%d", kind, s, s, t, b2i[tp]), typ: typ, data: ref, hasRef: true, region: true, size: s})
+				}
+			}
+		}
+	}
+	syms := jbSymbols()
+	inst := []jbig2.SymbolInstance{{SymID: 0, T: 0, S: 0, Wi: 3, Hi: 3}, {SymID: 1, T: 0, S: 4, Wi: 3, Hi: 3}}
+	txt := jbig2.EncodeTextRegionSegment(8, 8, 0, 0, inst, syms, 1 /* top left */, false, bitmap.CombOpOR, 1, 0, 0)
+	out = append(out, jbLetter{name: "text(6) 8x8", typ: 6, data: txt, hasRef: true})
+	return out
+}
+
+// jbParamSpaces lists the parameter-program spaces of a tier (the page
+// information letters come from the plain alphabet):
+//
+//	quick:    every ordered PAIR of parameter letters, on its own (length 2) and
+//	          behind each of the two page information segments (length 3)
+//	thorough: additionally a 128x128 page followed by every sequence of THREE
+//	          parameter letters of the 8x8 size (and the dictionary / text letters)
+func jbParamSpaces(pages []jbLetter, letters []jbLetter, thorough bool) []*jbSpace {
+	mk := func(length int, pgs []*jbLetter, smallOnly bool) *jbSpace {
+		s := &jbSpace{length: length, pageFirst: len(pgs) > 0, pages: pgs}
+		for i := range letters {
+			l := &letters[i]
+			if smallOnly && l.size > 8 {
+				continue
+			}
+			if l.hasRef {
+				s.withRef = append(s.withRef, l)
+			} else {
+				s.plain = append(s.plain, l)
+			}
+		}
+		return s
+	}
+	var pgs []*jbLetter
+	for i := range pages {
+		if pages[i].typ == 48 {
+			pgs = append(pgs, &pages[i])
+		}
+	}
+	out := []*jbSpace{mk(2, nil, false), mk(3, pgs, false)}
+	if thorough {
+		out = append(out, mk(4, pgs[len(pgs)-1:], true))
+	}
 	return out
 }
 
@@ -318,6 +416,44 @@ func (b *builder) jbig2ProgramGroups() {
 	b.t.dims["jbig2_program_referred_to_choices"] = "none, every segment number 0..L-1 of a program of length L (earlier segment, the segment itself, later segment), and L (no such segment)"
 	b.t.dims["jbig2_program_spaces"] = sizes
 	b.t.dims["jbig2_program_cases"] = total
+}
+
+func (b *builder) jbig2ParamProgramGroups() {
+	pages := jbLetters()
+	letters := jbParamLetters()
+	var names, sizes []string
+	for _, l := range letters {
+		n := fmt.Sprintf("%s (%d B)", l.name, len(l.data))
+		if l.hasRef {
+			n += " + referred-to segment"
+		}
+		names = append(names, n)
+	}
+	total := 0
+	for _, sp := range jbParamSpaces(pages, letters, b.thorough) {
+		sp := sp
+		n := sp.size()
+		total += n
+		what := fmt.Sprintf("length %d: %d programs (%d letter/reference choices per position", sp.length, n, sp.perPos())
+		if sp.pageFirst {
+			what += fmt.Sprintf("; segment 0 is one of %d page information segments", len(sp.pages))
+		}
+		if len(sp.plain)+len(sp.withRef) < len(letters) {
+			what += "; 8x8 regions, dictionaries and text only"
+		}
+		sizes = append(sizes, what+")")
+		b.t.add("jbig2-prog-param", n, func(k int) *xcase {
+			steps := sp.at(k)
+			return &xcase{
+				desc: "JBIG2 segment program " + jbProgramString(steps),
+				via:  "stream", mode: "drain", dict: streamDict("JBIG2Decode", nil),
+				body: jbProgramBody(steps), tag: "segment-program",
+			}
+		})
+	}
+	b.t.dims["jbig2_param_program_alphabet"] = names
+	b.t.dims["jbig2_param_program_spaces"] = sizes
+	b.t.dims["jbig2_param_program_cases"] = total
 }
 
 // jbig2ProgramSelfTest checks the harness's segment header writer against the
